@@ -143,3 +143,19 @@ func (s *Solo) SkipHeight() {
 	n.applyBlock(b)
 	n.Reset()
 }
+
+// Sync lets the application adopt k blocks "by other means" (ledger synchronisation) and re-initialises the node
+// once, at the end: the heights in between are never entered.
+func (s *Solo) Sync(k int) {
+	n := s.N
+	for i := 0; i < k; i++ {
+		b := &vt.Block{Header: vt.Header{Idx: n.Tip + 1, Prev: n.TipHash, Ts: n.TipTs + s.W.Cfg.TsIncrement, Nonce: uint64(90 + i)}}
+		n.applyBlock(b)
+	}
+	n.Reset()
+}
+
+// At builds a payload of validator idx for another height (the validator list of that height decides the author).
+func (s *Solo) At(h uint32, t dbft.MessageType, idx int, v byte, body any) Payload {
+	return vt.New(t, h, v, uint16(idx), s.W.Cfg.Validators(h)[idx], body)
+}
